@@ -29,5 +29,30 @@ pub fn spawn_external(prop_id: &str, tier: &str, seed: u64, root: &Path, out_dir
             }
         }
     }
+    // coverage-guided campaign (thorough tier only)
+    let target = match (tier, prop_id) {
+        ("thorough", "C01") => Some("fz_total"),
+        ("thorough", "C04") => Some("fz_diff"),
+        _ => None,
+    };
+    if let Some(target) = target {
+        let script = root.join("tools").join("fuzz_leg.py");
+        let py = std::env::var("JLV_PYTHON").unwrap_or_else(|_| "python3".to_string());
+        let tag = format!("fuzz-{}", target);
+        let child = Command::new(&py)
+            .arg(&script)
+            .args(["--target", target, "--seed", &seed.to_string()])
+            .args(["--out", &out_dir.join(format!("{}.json", tag)).to_string_lossy()])
+            .env("RUST_BACKTRACE", "0")
+            .env("JLV_ROOT", root)
+            .stdin(Stdio::null())
+            .stdout(Stdio::null())
+            .stderr(Stdio::inherit())
+            .spawn();
+        match child {
+            Ok(ch) => v.push((format!("external/{}", tag), ch)),
+            Err(e) => eprintln!("cannot spawn the fuzz leg: {}", e),
+        }
+    }
     v
 }
